@@ -2,10 +2,10 @@
    Case shape:  L (A op :: args).  Result: r_ok x | r_exc code | r_skip | sx_err (undecodable case).
    Op-code ranges:  1 ascii self-check | 10-19 month | 20-29 entry ops | 30-39 library ops | 40-49 field sorting/keys |
    50-59 block sorting | 60-69 writer | 70-79 stack | 80-99 names | 100-109 enclosing | 110-119 interpolate |
-   120-129 latex wrapper | 130-149 splitter | 150-159 round trip | 160-179 heap *)
+   120-129 latex wrapper | 130-149 splitter | 150-159 round trip | 160-179 heap | 180-189 runtime text layer *)
 From Coq Require Import List NArith ZArith Bool.
 From BP Require Import Base.Chars Base.Sx Run.Codec.
-From BP Require Import Run.RunMonth Run.RunSplitter Run.RunEntry Run.RunLibrary Run.RunSortFields Run.RunSortBlocks Run.RunWriter Run.RunStack Run.RunEnclosing Run.RunInterpolate Run.RunLatex Run.RunGrammar Run.RunHeap Run.RunPipeline Run.RunNames.
+From BP Require Import Run.RunMonth Run.RunSplitter Run.RunEntry Run.RunLibrary Run.RunSortFields Run.RunSortBlocks Run.RunWriter Run.RunStack Run.RunEnclosing Run.RunInterpolate Run.RunLatex Run.RunGrammar Run.RunHeap Run.RunPipeline Run.RunNames Run.RunText.
 Import ListNotations.
 Local Open Scope Z_scope.
 
@@ -30,6 +30,7 @@ Definition run_case (x : sx) : sx :=
       else if in_range 130 149 op then run_splitter op args
       else if in_range 150 159 op then run_pipeline op args
       else if in_range 160 179 op then run_heap op args
+      else if in_range 180 189 op then run_text op args
       else sx_err
   | _ => sx_err
   end.
